@@ -186,12 +186,17 @@ Definition document_element (z : zipper) : sum acc_err zipper :=
        | e :: _ => inr e
        end.
 
-(* top_element; None = the unwrap() of document_element panics *)
+(* top_element: the outermost element among the node and its ancestors; without one, the document element of the root if
+   the tree is a document that has one; the node itself otherwise.  (Always Some: the option is kept for the driver.) *)
 Definition top_element (z : zipper) : option zipper :=
-  if is_document z then
-    match document_element z with inl _ => None | inr e => Some e end
-  else
-    Some (fold_left (fun top a => if is_element a then a else top) (ancestors z) z).
+  match fold_left (fun top a => if is_element a then Some a else top) (ancestors z) None with
+  | Some e => Some e
+  | None =>
+      match document_element (last (ancestors z) z) with
+      | inr e => Some e
+      | inl _ => Some z
+      end
+  end.
 
 (* validate_well_formed_document *)
 Fixpoint validate_children (l : list zipper) (count : N) : sum acc_err N :=
